@@ -1098,7 +1098,7 @@ func (m *Models) a7(c *Ctx) *a7Merged {
 }
 
 // ruleA7 reports the sites located in functions selected by inScope (nil = all).
-func ruleA7(inScope func(fn string) bool, floor int) func(*Ctx) {
+func ruleA7(inScope func(fn string) bool, floor int, hardOnly ...bool) func(*Ctx) {
 	return func(c *Ctx) {
 		c.S.Rule("A7-args", textA7, floor)
 		res := c.M.a7(c)
@@ -1123,6 +1123,9 @@ func ruleA7(inScope func(fn string) bool, floor int) func(*Ctx) {
 			uniq := map[string]bool{}
 			for _, t := range s.good {
 				uniq[t] = true
+			}
+			if s.soft && len(hardOnly) > 0 && hardOnly[0] {
+				continue // dead options are a correctness matter of the command families, not a crash
 			}
 			if s.soft {
 				if s.softOK {
